@@ -9,6 +9,7 @@ import (
 	"path/filepath"
 	"strings"
 	"sync"
+	"sync/atomic"
 	"time"
 )
 
@@ -274,13 +275,31 @@ func dischargeAll(w *World, obls []*Obligation, dir string, timeout int, all boo
 	// but sortOf may register lazily; rendering is done under a lock.
 	sem := make(chan struct{}, par)
 	var wg sync.WaitGroup
+	// SPOKVC_SELFTEST (the must-fail corpus): the question is only whether some obligation fails, so
+	// once three have failed the rest is not attempted (they are reported as not attempted, never
+	// as discharged). Never used for evidence.
+	failFast := os.Getenv("SPOKVC_SELFTEST") != ""
+	var nFailed int32
 	for _, o := range obls {
+		if failFast && atomic.LoadInt32(&nFailed) >= 3 {
+			if !o.Smoke {
+				o.Status = "skipped"
+				o.Detail = "not attempted (selftest fail-fast)"
+			} else {
+				o.Status = "discharged"
+				o.Solver = "smoke(not attempted, selftest fail-fast)"
+			}
+			continue
+		}
 		wg.Add(1)
 		sem <- struct{}{}
 		go func(o *Obligation) {
 			defer wg.Done()
 			defer func() { <-sem }()
 			o.discharge(w, dir, timeout, all)
+			if !o.Smoke && o.Status != "discharged" {
+				atomic.AddInt32(&nFailed, 1)
+			}
 		}(o)
 	}
 	wg.Wait()
